@@ -410,6 +410,9 @@ func main() {
 			tier = next()
 		case "--replay":
 			replay = next()
+			if abs, err := filepath.Abs(replay); err == nil {
+				replay = abs
+			}
 		case "--repo":
 			repoRoot = next()
 		case "--verif":
@@ -770,7 +773,10 @@ func runCheck(c *Check, tier, replay string, keep bool, shardsOverride int) int 
 		rc = 1
 	}
 	if len(fresh) > maxReport {
-		fmt.Printf("  … and %d more distinct violation signatures\n", len(fresh)-maxReport)
+		fmt.Printf("  … and %d more distinct violation signatures:\n", len(fresh)-maxReport)
+		for _, v := range fresh[maxReport:] {
+			fmt.Printf("    %s (x%d): %.200s\n", sigString(v.Sig), v.Count, v.Desc)
+		}
 	}
 	var knownIdx []int
 	for i := range known {
